@@ -151,6 +151,30 @@ def double_ensure_anonymous(person, pref, first_named=True):
             ' ENSURE PROPOSITION (?a, "prefers", ?d)\n}' % (person, person.capitalize(), pref, pref, first))
 
 
+def touch_twice(k):
+    """One element changed by two clauses of a block: its version rises by exactly one."""
+    return ('MUTATE {\n'
+            ' UPSERT CONCEPT ?a { MATCH {type: "Person", key: "person:%s"} SET FIELDS {name: "%s twice"} }\n'
+            ' UPSERT CONCEPT ?b { MATCH {type: "Person", key: "person:%s"} SET ATTRIBUTES {summary: "second clause"} }\n}'
+            % (k, k.capitalize(), k))
+
+
+def anon_ensure_then_fail(person, pref):
+    """An anonymous ENSURE of a (possibly new) tuple followed by a clause that fails last: nothing may remain."""
+    return ('MUTATE {\n'
+            ' UPSERT CONCEPT ?a { MATCH {type: "Person", key: "person:%s"} SET FIELDS {name: "%s"} }\n'
+            ' UPSERT CONCEPT ?d { MATCH {type: "Preference", key: "pref:%s"} SET FIELDS {name: "%s"} }\n'
+            ' ENSURE PROPOSITION (?a, "prefers", ?d)\n'
+            ' CREATE CONCEPT ?z { TYPE "Spaceship" NAME "Enterprise" }\n}' % (person, person.capitalize(), pref, pref))
+
+
+def ensure_expect_version_fails(person, pref):
+    return ('MUTATE {\n'
+            ' UPSERT CONCEPT ?a { MATCH {type: "Person", key: "person:%s"} SET FIELDS {name: "%s"} }\n'
+            ' UPSERT CONCEPT ?d { MATCH {type: "Preference", key: "pref:%s"} SET FIELDS {name: "%s"} }\n'
+            ' ENSURE PROPOSITION ?p (?a, "prefers", ?d) EXPECT VERSION 99\n}' % (person, person.capitalize(), pref, pref))
+
+
 def purge(name):
     return 'PURGE "$id(%s)" CONFIRM "PURGE"' % name
 
@@ -192,7 +216,7 @@ def good_statements(rng):
         experience("Deploy " + rng.choice("XYZ"), ["Step one", "Step two"][: rng.randrange(1, 3)]),
         update_summary(p.capitalize(), "rev " + str(rng.randrange(100))), rename(p.capitalize(), p.capitalize() + " R."),
         archive(p.capitalize()), tombstone(p.capitalize()), retract_one(), supersede(p, rng.choice(PREFS), "0.95"),
-        merge(p.capitalize(), rng.choice(PERSONS).capitalize()), forward_reference(), chain(),
+        merge(p.capitalize(), rng.choice(PERSONS).capitalize()), forward_reference(), chain(), touch_twice(p),
         cut_link(rng.choice(["ARCHIVE", "TOMBSTONE"]), *rng.choice([("S1", "S2"), ("S2", "S3"), ("S3", "S4")])),
     ])
 
@@ -203,6 +227,7 @@ def bad_statements(rng):
         expect_version_fails(p), unknown_type_last(p), unknown_type_first(p), unknown_type_middle(p, rng.choice(PERSONS)),
         key_conflict_at_commit(p), create_person(p, "Dup " + p), unbound_handle(), double_ensure_same_tuple(p, rng.choice(PREFS)),
         double_ensure_anonymous(p, rng.choice(PREFS), rng.random() < 0.5),
+        anon_ensure_then_fail(p, rng.choice(PREFS)), ensure_expect_version_fails(p, rng.choice(PREFS)),
         purge_then_conflict(p.capitalize(), rng.choice(PERSONS)),
     ])
 
